@@ -284,6 +284,9 @@ func checkMergedView(p *Program, r *Report) {
 			Event:           map[string]bool{top: true, rem: true, adv: true, "method:(record).copyFrom": true, funcKey(a.hEmpty): true},
 			Pure:            map[string]bool{keyName: true},
 			NoInlineDefault: true,
+			// helper methods of the iterator extracted from the producer (e.g. the
+			// shadow loop on its own) are analysed as part of it
+			Inline: iterHelpers(p, a, a.producer),
 		}
 		c, _ := runSim(p, a.producer, cfg, nil)
 		fk := funcKey(a.producer)
@@ -529,7 +532,13 @@ func checkMergedView(p *Program, r *Report) {
 	{
 		seekName := "method:(Table).seekRecord"
 		fk := funcKey(a.seekRec)
-		cfg := &simCfg{Event: map[string]bool{seekName: true, funcKey(a.initF): true}, Keep: map[string]bool{funcKey(a.initF): true}, Pure: map[string]bool{"method:(record).typ": true, "method:(Table).Name": true}, NoInlineDefault: true}
+		inl := map[string]bool{}
+		for k := range directCallees(a.seekRec) {
+			if g := p.Func(k); g != nil && g != a.seekRec && g.Signature.Recv() != nil && types.Identical(g.Signature.Recv().Type(), a.seekRec.Signature.Recv().Type()) {
+				inl[k] = true // helper methods of the view (e.g. the per-table seek loop on its own)
+			}
+		}
+		cfg := &simCfg{Event: map[string]bool{seekName: true, funcKey(a.initF): true}, Keep: map[string]bool{funcKey(a.initF): true}, Pure: map[string]bool{"method:(record).typ": true, "method:(Table).Name": true}, NoInlineDefault: true, Inline: inl}
 		c, _ := runSim(p, a.seekRec, cfg, nil)
 		m := mk("param", fk+"."+a.seekRec.Params[0].Name(), nil)
 		rec := mk("param", fk+"."+a.seekRec.Params[1].Name(), nil)
@@ -1021,4 +1030,33 @@ func swapOf(stores [][2]*Term, slice, a, b *Term) bool {
 		}
 	}
 	return ok == 2
+}
+
+// iterHelpers: methods of the merged iterator called directly by f that are
+// not themselves anchors (producer, advance, init, Next) nor heap methods.
+func iterHelpers(p *Program, a *mergedAnchors, f *ssa.Function) map[string]bool {
+	res := map[string]bool{}
+	for k := range directCallees(f) {
+		g := p.Func(k)
+		if g == nil || g == f || !recvIsT(g, a.iterT) {
+			continue
+		}
+		if g == a.producer || g == a.advance || g == a.initF || g == a.next {
+			continue
+		}
+		res[k] = true
+	}
+	return res
+}
+
+func recvIsT(f *ssa.Function, t *types.Named) bool {
+	r := f.Signature.Recv()
+	if r == nil {
+		return false
+	}
+	rt := r.Type()
+	if pt, ok := rt.(*types.Pointer); ok {
+		rt = pt.Elem()
+	}
+	return types.Identical(rt, t)
 }
